@@ -2,8 +2,13 @@
 
 package main
 
-import "verif/engine/core"
+import (
+	"verif/engine/c20seq"
+	"verif/engine/core"
+)
 
 // extraFamilies: the sequential statement-interleaving families (package
-// c20seq) are added here when available.
-func extraFamilies(tier string) []*core.Family { return nil }
+// c20seq).  They run free (no controlled schedule): vsched falls back to the
+// real primitives when no Run is active; c20seq re-executes this binary as a
+// child process for each batch of cases (C20SEQ_CHILD).
+func extraFamilies(tier string) []*core.Family { return c20seq.Families(tier) }
